@@ -63,3 +63,10 @@ fn c17_vacuity_vector_bounds() {
     let _ = v.wrapped_between(lo, hi);
     assert!(false);
 }
+#[kani::proof]
+fn c17_vacuity_f32_wrap_domain() {
+    let v: f32 = kani::any(); let u: f32 = kani::any();
+    kani::assume(v.abs() <= 1e38 && u <= 1e38 && u > 0.0 && few_bits(u) && (v / u).is_finite() && v < -u);
+    let _ = v.wrapped(u);
+    assert!(false);
+}
